@@ -53,7 +53,11 @@ def gen_cases(tier, seed):
         for i, o, pres, lay in itertools.product(IN_TYPES, OUT_TYPES, (True, False), LAYOUTS):
             cases.append({"in": i, "out": o, "preserve": pres, "layout": lay,
                           "vseed": rnd.randrange(2 ** 32),
-                          "n": 96 if tier == "quick" else 256})
+                          "n": 96 if tier == "quick" else 256,
+                          # every third repetition: all values inside the target range but
+                          # ONE value at or just beyond a range limit (whole-array min/max
+                          # shortcuts see a chunk that "almost fits")
+                          "narrow": rep % 3 == 1})
     # directed: large arrays (size-dependent code paths), 12 * 6000 elements
     for i, o in itertools.product(IN_TYPES, OUT_TYPES):
         if rnd.random() < (0.25 if tier == "quick" else 1.0):
@@ -73,6 +77,41 @@ def gen_cases(tier, seed):
     return cases
 
 
+def _narrow_values(case, rnd, tlo, thi):
+    i = case["in"]
+    n = case["n"]
+    if i in dx.INT_RANGE:
+        lo, hi = dx.INT_RANGE[i]
+        a, b = max(lo, tlo), min(hi, thi)
+        vals = [rnd.randint(a, b) if rnd.random() < 0.7 else rnd.choice([a, b, a + 1, b - 1])
+                for _ in range(n)]
+        vals = [min(max(x, a), b) for x in vals]
+        ext = [c for c in (tlo - 1, thi + 1, tlo - 2, thi + 2, lo, hi, tlo, thi)
+               if lo <= c <= hi]
+        vals[rnd.randrange(n)] = rnd.choice(ext)
+        return vals
+    conv = dx.f32 if i == "float32" else float
+    vals = []
+    for _ in range(n):
+        k = rnd.random()
+        if k < 0.4:
+            x = rnd.uniform(tlo, thi)
+        elif k < 0.7:
+            x = rnd.randint(tlo, max(tlo, min(thi, 2 ** 22)) - 1) + 0.5 if thi > tlo else tlo
+        else:
+            x = float(rnd.randint(tlo, thi))
+        x = conv(x)
+        if not (tlo <= x <= thi):
+            x = float(tlo)
+        vals.append(x)
+    ext = [thi + 1, thi + 0.5, thi + 0.49, thi + 0.51, tlo - 1, tlo - 0.5, tlo - 0.51,
+           tlo - 0.49, float(thi), float(tlo), thi * (1 + 2.0 ** -23), thi * (1 + 2.0 ** -52),
+           2.0 * thi + 2]
+    e = conv(rnd.choice(ext))
+    vals[rnd.randrange(n)] = e
+    return vals
+
+
 def _values(case):
     rnd = random.Random(case["vseed"])
     i, o = case["in"], case["out"]
@@ -81,6 +120,8 @@ def _values(case):
         tlo, thi = dx.INT_RANGE[o]
     else:
         tlo, thi = 0, 2 ** 24
+    if case.get("narrow") and o in dx.INT_RANGE:
+        return _narrow_values(case, rnd, tlo, thi)
     if i in dx.INT_RANGE:
         lo, hi = dx.INT_RANGE[i]
         cand = [lo, lo + 1, hi, hi - 1, 0, 1, 2, -1, -2, tlo, tlo - 1, tlo + 1, thi, thi - 1,
@@ -235,7 +276,8 @@ def run_case(case):
     obs = {"elements": 0, "ties": 0, "saturated": 0, "exact_preserved": 0,
            "pairs": {f"{i}->{o}": 1}, "layouts": {case["layout"]: 1},
            "preserve_true": int(case["preserve"]), "preserve_false": int(not case["preserve"]),
-           "large_arrays": int(bool(case.get("large")))}
+           "large_arrays": int(bool(case.get("large"))),
+           "arrays_with_a_single_value_at_a_range_limit": int(bool(case.get("narrow")))}
     try:
         # conversion loops create one transformer and call it for every chunk: half of the
         # cases share one transformer per type pair for the life of the worker
@@ -313,4 +355,6 @@ def gates(obs, tier):
         "saturation_seen": obs.get("saturated", 0) > 100,
         "arrays_of_tens_of_thousands_of_elements": obs.get("large_arrays", 0) > 3,
         "arrays_beyond_2_20_elements": obs.get("huge_arrays", 0) > 3,
+        "arrays_with_a_single_value_at_a_range_limit": obs.get(
+            "arrays_with_a_single_value_at_a_range_limit", 0) > 500,
     }
